@@ -376,7 +376,7 @@ func (rn *runner) invalidAlone(j *job, raw []byte) (*invalidRec, bool) {
 	return nil, false
 }
 
-func (rn *runner) handleCrash(j *job, r *core.ChildResult, order []int, pos int, seen map[string]int) {
+func (rn *runner) handleCrash(j *job, r *core.ChildResult, order []int, start, pos int, seen map[string]int) {
 	c := rn.c
 	kind, msg, at := crashClass(r)
 	idx := order[pos]
@@ -416,20 +416,21 @@ func (rn *runner) handleCrash(j *job, r *core.ChildResult, order []int, pos int,
 	}
 	// not alone: the same prefix again
 	jj := *j
-	in := jj.childIn(order[:pos+1])
+	// the chunk that died, not the whole list: earlier lethal events ended earlier chunks
+	in := jj.childIn(order[start : pos+1])
 	r3, _ := runChild(in)
 	if r3.Crashed() {
 		k3, m3, a3 := crashClass(r3)
 		if k3 == kind && m3 == msg && a3 == at {
 			var hist []string
-			for _, i := range order[max(0, pos-6) : pos+1] {
+			for _, i := range order[max(start, pos-6) : pos+1] {
 				hist = append(hist, evStr(j.events[i].Raw))
 			}
 			sig := fmt.Sprintf("plugin=%s crash=%s msg=%s at=%s trigger=history", sigPlugin(j, r3.Stderr, at), kind, msg, at)
 			fmt.Printf("finding: %s [config %s]\n", sig, j.cfg.Label)
 			c.Violation(sig,
 				fmt.Sprintf("%s (config %q) dies after a sequence of events (not on the last one alone): %s at %s", j.name, j.cfg.Label, msg, at),
-				rn.witness(j, map[string]any{"last_events": hist, "sequence_length": pos + 1, "stderr": core.Trunc(tailPanic(r3.Stderr), 3000)}))
+				rn.witness(j, map[string]any{"last_events": hist, "sequence_length": pos + 1 - start, "stderr": core.Trunc(tailPanic(r3.Stderr), 3000)}))
 			c.Count("crashes_confirmed_history", 1)
 			return
 		}
@@ -601,7 +602,7 @@ func (rn *runner) runJob(j *job) {
 			c.Count("outputs_invalid", int64(len(inv)))
 			rn.handleInvalid(j, inv, order[start:pos+1], seenInvalid)
 		}
-		rn.handleCrash(j, r, order, pos, seenCrash)
+		rn.handleCrash(j, r, order, start, pos, seenCrash)
 		crashes++
 		if crashes >= c.N(250, 1500) {
 			c.Count("events_skipped_after_many_crashes", int64(len(order)-pos-1))
